@@ -51,6 +51,12 @@ func pickType(c *fw.Case, noStd bool) (reflect.Type, *jsonschema.ForOptions, str
 			return gen.Pick(r, []reflect.Type{reflect.TypeFor[typecorpus.WithCustom](), reflect.TypeFor[typecorpus.WithCustomPtr]()}), customOpts(), "corpus-custom"
 		}
 		if r.IntN(4) == 0 {
+			// the caller's entry for a type that also has a BUILT-IN translation wins (big.Int: number, not "string")
+			o := customOpts()
+			o.TypeSchemas[reflect.TypeFor[big.Int]()] = &jsonschema.Schema{Type: "integer"}
+			return gen.Pick(r, []reflect.Type{reflect.TypeFor[typecorpus.WithBigInt](), reflect.TypeFor[[]typecorpus.WithBigInt](), reflect.TypeFor[map[string]*big.Int]()}), o, "corpus-builtin-overridden"
+		}
+		if r.IntN(4) == 0 {
 			// kinds For cannot translate, with their own marshalers and TypeSchemas entries; IgnoreInvalidTypes on or off
 			o := customOpts()
 			o.TypeSchemas[reflect.TypeFor[typecorpus.IDSet]()] = &jsonschema.Schema{Type: "array", Items: &jsonschema.Schema{Type: "integer"}}
